@@ -1,6 +1,6 @@
 --------------------------------- MODULE Denote ---------------------------------
 (* Dispatch from an operation event to its reference meaning.                    *)
-EXTENDS Views, Select, Broadcast, Slice, Ufunc, Compare, Linalg, NN, TLC
+EXTENDS Views, Select, Broadcast, Slice, Ufunc, Compare, Linalg, NN, StackMachine, TLC
 
 Operand(e, j) == IF j > Len(e.shapes) THEN Nothing
                  ELSE IF "data" \in DOMAIN e THEN [ok |-> TRUE, shape |-> e.shapes[j], elems |-> e.data[j]]
@@ -64,6 +64,14 @@ ExpectWith(e, a) ==
       [] e.op = "diagflat" -> DiagFlat(a, e.args.k)
       [] e.op = "tril" -> Tril(a, e.args.k)
       [] e.op = "triu" -> Triu(a, e.args.k)
+      \* C14: a composition with combinators applied to its operands (any split of the operand list, either grouping) leaves the stack of the machine
+      [] e.op = "fstack" ->
+            LET comp == [m \in 1..Len(e.comp) |-> SigOf(e.comp[m])]
+                n == Len(e.shapes)
+                st == Run(comp, [m \in 1..n |-> L(LeafNames[m])])
+                env == [nm \in {LeafNames[m] : m \in 1..n} |-> e.data[CHOOSE m \in 1..n : LeafNames[m] = nm]]
+            IN IF st = Stuck THEN Nothing
+               ELSE [ok |-> TRUE, shape |-> [m \in 1..Len(st) |-> e.shapes[1]], elems |-> [m \in 1..Len(st) |-> Interp(st[m], env)]]
       [] e.op = "fufunc" -> WithTol(e,
             IF Len(e.shapes) = 1 THEN [ok |-> TRUE, shape |-> a.shape, elems |-> [q \in 1..Len(a.elems) |-> TabLookup1(e.args.tab, a.elems[q])]]
             ELSE LET r == BShapeN(e.shapes) IN
